@@ -243,6 +243,9 @@ enum Op {
     RunEnded { t: usize },
     Cursor { t: usize },
     SideFx { t: usize },
+    /// append_context_selection_decided / append_context_compiled (what a run's context compile records on its thread)
+    Selection { t: usize },
+    Compiled { t: usize },
     /// compaction_checkpoint_cumulative_v1 at the last message (artifact write, then frame)
     Checkpoint { t: usize },
     Branch { t: usize },
@@ -370,6 +373,20 @@ impl World {
                     "rv".into(),
                 )
                 .map(|_| ())
+            }
+            Op::Selection { t } => {
+                let (tid, mid) = self.link(*t);
+                ripd::verif::append_context_selection_decided(&self.store, &tid, "sess-run".into(), mid, "recent_messages_v1".into(), vec![], "user".into(), "rv".into()).map(|id| self.returned.push(id))
+            }
+            Op::Compiled { t } => {
+                let (tid, mid) = self.link(*t);
+                // the compiled bundle is an artifact the frame names: the run writes it first (here: the harness does)
+                let art = format!("rv{}{}", uuid::Uuid::new_v4().simple(), uuid::Uuid::new_v4().simple());
+                let blobs = ws_dir(&self.root).join(".rip").join("artifacts").join("blobs");
+                std::fs::create_dir_all(&blobs).map_err(|e| e.to_string())?;
+                std::fs::write(blobs.join(&art), b"{}").map_err(|e| e.to_string())?;
+                ripd::verif::append_context_compiled(&self.store, &tid, "sess-run".into(), art, "recent_messages_v1".into(), 0, Some(mid), "user".into(), "rv".into())
+                    .map(|id| self.returned.push(id))
             }
             Op::SideFx { t } => {
                 let (tid, mid) = self.link(*t);
@@ -588,7 +605,11 @@ fn enc_disk(out: &mut Vec<u64>, root: &Path, ids: &Ids, nthreads: usize) {
     // artifact store: number of complete blobs, number of <id>.tmp files
     let (mut blobs, mut tmps) = (0u64, 0u64);
     for e in std::fs::read_dir(ws_dir(root).join(".rip").join("artifacts").join("blobs")).into_iter().flatten().flatten() {
-        if e.file_name().to_string_lossy().ends_with(".tmp") {
+        let name = e.file_name().to_string_lossy().to_string();
+        if name.starts_with("rv") {
+            continue; // written by the harness itself (the bundle an Op::Compiled frame names)
+        }
+        if name.ends_with(".tmp") {
             tmps += 1;
         } else {
             blobs += 1;
@@ -855,7 +876,7 @@ fn model_op(op: &Op, lens: &[u64], new_thread: u64, art: u64) -> MOp {
     let l = |i: usize| lens.get(i).cloned().unwrap_or(0);
     let term = match op {
         Op::Ensure => format!("OEnsure {} {}", new_thread, l(0)),
-        Op::Msg { t, .. } | Op::RunSpawned { t } | Op::RunEnded { t } | Op::Cursor { t } | Op::SideFx { t } => format!("OAppend {} {}", t, l(0)),
+        Op::Msg { t, .. } | Op::RunSpawned { t } | Op::RunEnded { t } | Op::Cursor { t } | Op::SideFx { t } | Op::Selection { t } | Op::Compiled { t } => format!("OAppend {} {}", t, l(0)),
         Op::Sess { s, .. } => format!("OSess {} {}", s, l(0)),
         Op::Checkpoint { t } => format!("OCheckpoint {} {art} {} {}", t, if lens.is_empty() { "false" } else { "true" }, l(0)),
         Op::Branch { t } => format!("OBranch {} {} {} {}", t, new_thread, l(0), l(1)),
@@ -1128,7 +1149,7 @@ fn analyse(
     }
     // facts used to classify a violation (executable class)
     let inflight_stream = match &ops[op_index] {
-        Op::Msg { t, .. } | Op::RunSpawned { t } | Op::RunEnded { t } | Op::Cursor { t } | Op::SideFx { t } | Op::Checkpoint { t } => threads0.get(*t).cloned(),
+        Op::Msg { t, .. } | Op::RunSpawned { t } | Op::RunEnded { t } | Op::Cursor { t } | Op::SideFx { t } | Op::Selection { t } | Op::Compiled { t } | Op::Checkpoint { t } => threads0.get(*t).cloned(),
         Op::Branch { .. } | Op::Handoff { .. } => threads0.last().cloned(),
         _ => None,
     };
@@ -1400,6 +1421,8 @@ fn boundary_workload() -> Vec<Op> {
         Op::RunEnded { t: 0 },
         Op::Cursor { t: 0 },
         Op::SideFx { t: 0 },
+        Op::Selection { t: 0 },
+        Op::Compiled { t: 0 },
         Op::Sess { s: 1, len: 100_000, k: 3 },
         Op::Msg { t: 0, len: 0 },
         // payloads above the BufWriter capacity: written straight to the file by write_all
@@ -1427,6 +1450,8 @@ fn corpus_workloads() -> Vec<Vec<Op>> {
                 "RunEnded" => Op::RunEnded { t },
                 "Cursor" => Op::Cursor { t },
                 "SideFx" => Op::SideFx { t },
+                "Selection" => Op::Selection { t },
+                "Compiled" => Op::Compiled { t },
                 "Checkpoint" => Op::Checkpoint { t },
                 "Branch" => Op::Branch { t },
                 "Handoff" => Op::Handoff { t },
@@ -1474,8 +1499,14 @@ fn gen_workload(r: &mut Rng, n: usize, rich: bool) -> Vec<Op> {
             0..=3 => Op::Msg { t, len: *r.pick(&lens) },
             4 => Op::RunSpawned { t },
             5 => Op::RunEnded { t },
-            6 => Op::Cursor { t },
-            7 => Op::SideFx { t },
+            6 => match r.below(2) {
+                0 => Op::Cursor { t },
+                _ => Op::Selection { t },
+            },
+            7 => match r.below(2) {
+                0 => Op::SideFx { t },
+                _ => Op::Compiled { t },
+            },
             8 | 9 => {
                 let s = r.below(3) as usize;
                 has[s] = true;
